@@ -17,6 +17,7 @@ from vf.rigs.env import Env
 from vf.runner import Ob
 
 LEVEL = "other"
+TECHNIQUE = ('CrossHair (z3) inductive steps on the pure metadata mutators from arbitrary small states + symx over solver-chosen histories with an independent invariant checker')
 EXPLANATION = (
     "CrossHair/z3 on the pure metadata mutators from arbitrary small states (all parent forests of <= 3/4 nodes "
     "incl. cycles and dangling parents; symbolic timestamps, retention counts, current ids, log bounds), verdict "
